@@ -145,6 +145,7 @@ fn dispatch(id: &str, tier: Tier) -> i32 {
         "C04" => props::c04::run(tier),
         "C05" => props::c05::run(tier),
         "C06" => props::c06::run(tier),
+        "C07" => props::c07::run(tier),
         "C08" => props::c08::run(tier),
         "C09" => props::c09::run(tier),
         "C10" => props::c10::run(tier),
@@ -172,6 +173,7 @@ fn dispatch_replay(id: &str, case: &Value) -> i32 {
         "C04" => props::c04::replay(case),
         "C05" => props::c05::replay(case),
         "C06" => props::c06::replay(case),
+        "C07" => props::c07::replay(case),
         "C08" => props::c08::replay(case),
         "C09" => props::c09::replay(case),
         "C10" => props::c10::replay(case),
